@@ -1,3 +1,4 @@
+import S3db.Lemmas.DelOrder
 import S3db.Model.Vacuum
 import S3db.Lemmas.KvMerge
 import S3db.Gen.Facts
@@ -123,16 +124,43 @@ example : let l : Listing := { current := [1, 2], merged := [0] }
 
 /-! ### an interrupted vacuum leaves nothing out of the next one's reach (F93) -/
 
-/-- **whatever is still there can still be found**: if the deletion order is closed at every
-    prefix and the chosen versions are closed under "supersedes" (they are whenever creation times
-    grow along the history), then after a crash at ANY point k of the deletion loop, a walk back
-    from anywhere to a version object that still exists meets no deleted version — the next
-    vacuum, walking back from the current version, reaches every chosen version that is left -/
-theorem interrupted_delete_keeps_rest_reachable (g : VGraph) (chosen order : List Nat) (k : Nat)
+/-- **the source's deletion order is closed wherever it is cut**: for every version graph without
+    cycles (`rank`: a version's parents rank below it; names are hashes of contents that include
+    the parents' names) and every set of chosen versions, the depth-first order `deletionOrder`
+    (fact `vacuumDeletesSupersededFirst`) has deleted, at every point of the loop, all chosen
+    versions superseded by anything it has deleted -/
+theorem deletion_order_prefix_closed (g : VGraph) (chosen : List Nat) (rank : Nat → Nat)
+    (hrank : ∀ c p, p ∈ g.parents c → rank p < rank c)
+    (hfuel : ∀ v, v ∈ chosen → rank v ≤ g.versions.length) :
+    PrefixClosed g chosen (deletionOrder F g chosen) := by
+  have hF : F.vacuumDeletesSupersededFirst = true := by decide
+  unfold deletionOrder
+  rw [if_pos hF]
+  exact prefixClosed_of_good g chosen
+    (foldl_visit_good g chosen rank hrank g.versions.length chosen hfuel [] trivial)
+
+/-- … and it deletes chosen versions only -/
+theorem deletion_order_sub (g : VGraph) (chosen : List Nat) :
+    ∀ v, v ∈ deletionOrder F g chosen → v ∈ chosen := by
+  have hF : F.vacuumDeletesSupersededFirst = true := by decide
+  intro v hv
+  unfold deletionOrder at hv
+  rw [if_pos hF] at hv
+  exact foldl_visit_sub g chosen g.versions.length chosen (fun _ h => h) [] (fun _ h => nomatch h) v
+    (List.mem_reverse.mp hv)
+
+/-- **whatever is still there can still be found**: if the deletion order is closed wherever it is
+    cut and the chosen versions are closed under "supersedes" (they are whenever creation times
+    grow along the history), then after a crash at ANY point of the deletion loop (`done` deleted,
+    `todo` not yet), a walk back from anywhere to a version object that still exists meets no
+    deleted version — the next vacuum, walking back from the current version, reaches every chosen
+    version that is left -/
+theorem interrupted_delete_keeps_rest_reachable (g : VGraph) (chosen order done todo : List Nat)
+    (hsplit : order = done ++ todo)
     (hord : PrefixClosed g chosen order) (hsub : ∀ v, v ∈ order → v ∈ chosen)
     (hclosed : ∀ c, c ∈ chosen → ∀ p, p ∈ g.parents c → p ∈ chosen)
     (walk : List Nat) (hw : Walk g walk) (v : Nat) (hlast : walk.getLast? = some v)
-    (hv : v ∉ order.take k) : ∀ u, u ∈ walk → u ∉ order.take k := by
+    (hv : v ∉ done) : ∀ u, u ∈ walk → u ∉ done := by
   induction walk with
   | nil => intro u hu; cases hu
   | cons a rest ih =>
@@ -149,28 +177,39 @@ theorem interrupted_delete_keeps_rest_reachable (g : VGraph) (chosen order : Lis
       intro u hu
       rcases List.mem_cons.mp hu with rfl | hu
       · intro hdel
-        have huc : u ∈ chosen := hsub u (List.mem_of_mem_take hdel)
+        have huc : u ∈ chosen := hsub u (by rw [hsplit]; exact List.mem_append_left _ hdel)
         have hbc : b ∈ chosen := hclosed u huc b hab
-        exact ih' b List.mem_cons_self (hord k u hdel b hab hbc)
+        exact ih' b List.mem_cons_self (hord done todo hsplit u hdel b hab hbc)
       · exact ih' u hu
 
+/-- the two together, for the order the source uses -/
+theorem interrupted_vacuum_leaves_rest_reachable (g : VGraph) (chosen done todo : List Nat)
+    (rank : Nat → Nat) (hrank : ∀ c p, p ∈ g.parents c → rank p < rank c)
+    (hfuel : ∀ v, v ∈ chosen → rank v ≤ g.versions.length)
+    (hsplit : deletionOrder F g chosen = done ++ todo)
+    (hclosed : ∀ c, c ∈ chosen → ∀ p, p ∈ g.parents c → p ∈ chosen)
+    (walk : List Nat) (hw : Walk g walk) (v : Nat) (hlast : walk.getLast? = some v)
+    (hv : v ∉ done) : ∀ u, u ∈ walk → u ∉ done :=
+  interrupted_delete_keeps_rest_reachable g chosen _ done todo hsplit
+    (deletion_order_prefix_closed g chosen rank hrank hfuel) (deletion_order_sub g chosen) hclosed walk hw v hlast hv
+
 /-- the source's order on a history with a fork and a merge: 0 ← 1 ← {2, 3} ← 4 (4 merges 2 and 3),
-    all four old versions chosen, given in the worst order — emitted oldest first -/
+    all four old versions chosen, given in the worst order — emitted oldest first (non-vacuity:
+    `rank := id` and fuel 5 meet the hypotheses above) -/
 example :
     let g : VGraph := { versions := [0, 1, 2, 3, 4], created := fun _ => 0,
                         parents := fun c => if c = 4 then [2, 3] else if c = 3 then [1] else if c = 2 then [1] else if c = 1 then [0] else [] }
     deletionOrder F g [3, 2, 1, 0] = [0, 1, 3, 2] := by decide
 
-/-- … and that order is closed at every prefix, while the order the versions came in is not:
-    interrupted after one deletion it has removed 3 and left 1 and 0 behind it (tests on one
-    history, not the general claim: the tie for the walk itself is the fact + the `vac` stream's
-    crash loop, which runs a complete vacuum after every third crash point) -/
-example :
+/-- the order the versions came in is not closed: cut after one deletion it has removed 3 and
+    left 1 and 0, which 3 superseded, behind it (F93 on the model without the rule) -/
+theorem map_order_is_not_prefix_closed :
     let g : VGraph := { versions := [0, 1, 2, 3, 4], created := fun _ => 0,
                         parents := fun c => if c = 4 then [2, 3] else if c = 3 then [1] else if c = 2 then [1] else if c = 1 then [0] else [] }
-    (∀ k, k ≤ 4 → ∀ c, c ∈ (deletionOrder F g [3, 2, 1, 0]).take k → ∀ p, p ∈ g.parents c → p ∈ [3, 2, 1, 0] →
-        p ∈ (deletionOrder F g [3, 2, 1, 0]).take k) ∧
-    ¬ (1 ∈ (deletionOrder { F with vacuumDeletesSupersededFirst := false } g [3, 2, 1, 0]).take 1) := by
+    ¬ PrefixClosed g [3, 2, 1, 0] (deletionOrder { F with vacuumDeletesSupersededFirst := false } g [3, 2, 1, 0]) := by
+  intro g h
+  have := h [3] [2, 1, 0] (by decide) 3 (by decide) 1 (by decide) (by decide)
+  revert this
   decide
 
 theorem deletion_order_facts : F.vacuumDeletesSupersededFirst = true := by decide
